@@ -56,7 +56,7 @@ pub fn generate(prop: &str, tier: &str, seed: u64, outdir: &str) {
         "C09" => gen_c09(&mut out, &mut rng, thorough),
         "C02" => gen_c02(&mut out, &mut rng, thorough),
         "C15" => {
-            let scripts: Vec<usize> = if thorough { (0..crate::faults::NUM_SCRIPTS).collect() } else { vec![0, 1, 2, 4, 5] };
+            let scripts: Vec<usize> = if thorough { (0..crate::faults::NUM_SCRIPTS).collect() } else { vec![0, 1, 2, 4, 5, 6] };
             for n in scripts {
                 for kind in ["write", "read", "seek"] {
                     for mode in ["transient", "persistent"] {
@@ -1206,6 +1206,10 @@ fn gen_c16(out: &mut Out, rng: &mut Rng, thorough: bool) {
     for _ in 0..n {
         // build a package with some content, save it, reopen it
         crate::hist::gen_session(out, rng, &cfg);
+        if rng.chance(1, 2) {
+            // database code page and summary code page are independent: leave them different
+            out.req("set_db_cp", format!("set_db_cp {}", rng.pick(&["Windows1252", "Iso88591", "Utf8", "Windows1251"])));
+        }
         out.req("reopen", format!("reopen {}", rng.pick(&crate::hist::CLOSE_MODES)));
         // read-only calls
         let k = rng.below(12);
@@ -1428,10 +1432,50 @@ fn corrupt(rng: &mut Rng, base: &[(String, Vec<u8>)]) -> (Vec<(String, Vec<u8>)>
     let i = rng.below(e.len() as u64) as usize;
     let is_summary = e[i].0.starts_with('\u{5}');
     let words = [0u16, 1, 2, 0xffff, 0x8000, 0x7fff, 0x8001, 0x0800, 0x2800, 0x3fff, 0x00ff, 300];
-    match rng.below(10) {
+    match rng.below(12) {
         0 => {
             e.remove(i);
             (e, "stream_missing")
+        }
+        10 => {
+            // a well-formed property set whose VALUES are hostile: every getter must cope
+            use crate::decode::{write_propset, PVal, PropLayout};
+            let hostile: [&[u8]; 14] = [b"{", b"}", b"{}", b"{{", b"", b"{\xc3\xa9", b"\xc3", b";", b"x64;", b";1033", b"x;1033,abc,,7", b"{34AB5C53-9B30-4E14-AEF0-2C1C7BA826C0", b"34AB5C53-9B30-4E14-AEF0-2C1C7BA826C0}", b"{34AB5C53-9B30-4E14-AEF0-2C1C7BA826C0}}"];
+            let mut props: Vec<(u32, PVal)> = vec![(1, PVal::I2(*rng.pick(&[-535i16, 1252, 0, 20127])))];
+            for id in [2u32, 3, 4, 6, 7, 9, 18] {
+                if rng.chance(2, 3) {
+                    props.push((id, PVal::Str(rng.pick(&hostile).to_vec())));
+                } else if rng.chance(1, 3) {
+                    // a getter's property with a value of another type
+                    props.push((id, rng.pick(&[PVal::I4(7), PVal::Null, PVal::Empty, PVal::Time(u64::MAX)]).clone()));
+                }
+            }
+            props.push((12, rng.pick(&[PVal::Time(u64::MAX), PVal::Time(0), PVal::I4(-1), PVal::Str(b"x".to_vec())]).clone()));
+            props.push((15, rng.pick(&[PVal::I4(i32::MIN), PVal::I2(-1), PVal::Str(b"".to_vec())]).clone()));
+            let np = props.len();
+            let pl = PropLayout { version: 0, os: 2, os_version: 10, section_gap: 0, table_order: (0..np).collect(), value_order: (0..np).collect(), gaps: vec![0; np] };
+            let data = write_propset(&props, &pl);
+            match e.iter_mut().find(|x| x.0.starts_with('\u{5}')) {
+                Some(x) => x.1 = data,
+                None => e.push(("\u{5}SummaryInformation".to_string(), data)),
+            }
+            (e, "summary_values")
+        }
+        11 => {
+            // pool entries whose lengths (through the long-string escape) add up to 2^32 and more,
+            // against the short data stream that is there
+            let pool_name = crate::decode::pack_name("_StringPool", true);
+            if let Some(x) = e.iter_mut().find(|x| x.0 == pool_name) {
+                let keep = 4 + 4 * rng.below(3) as usize;
+                x.1.truncate(keep.min(x.1.len()));
+                let k = 2 + rng.below(3);
+                for _ in 0..k {
+                    let hi = *rng.pick(&[0x8000u16, 0xffff, 0x4000, 0x7fff]);
+                    let lo = *rng.pick(&[0u16, 0xffff, 1]);
+                    x.1.extend_from_slice(&[0, 0, hi as u8, (hi >> 8) as u8, lo as u8, (lo >> 8) as u8, 1, 0]);
+                }
+            }
+            (e, "pool_lengths")
         }
         1 => {
             let k = 1 + rng.below(5) as usize;
@@ -1635,12 +1679,14 @@ fn gen_c02(out: &mut Out, rng: &mut Rng, thorough: bool) {
         // summary information by the independent property-set writer
         let sum_cp: u16 = if rng.chance(1, 2) { 65001 } else { *rng.pick(&[1252u16, 0, 932, 20127]) };
         let enc_sum = |s: &str| -> Vec<u8> {
-            if sum_cp == 65001 || sum_cp == 0 { s.as_bytes().to_vec() } else { s.bytes().collect() }
+            // 1252 agrees with Latin-1 on U+00A0..U+00FF; everything else generated here is ASCII
+            if sum_cp == 65001 || sum_cp == 0 { s.as_bytes().to_vec() } else { s.chars().map(|c| c as u32 as u8).collect() }
         };
         let mut props: Vec<(u32, PVal)> = vec![(1, PVal::I2(sum_cp as i16))];
         for (id, text) in [(2u32, "Installation Database"), (3, "Subject x"), (4, "Ann"), (6, "c"), (18, "tool 1.0"), (7, "x64;1033,1041"), (9, "{34AB5C53-9B30-4E14-AEF0-2C1C7BA826C0}")] {
             if rng.chance(2, 3) {
-                let t = if (sum_cp == 65001) && rng.chance(1, 5) { format!("{text}\u{e9}") } else { text.to_string() };
+                // non-ASCII text under UTF-8 and under 1252 (the code page entry may come after the strings it governs)
+                let t = if (sum_cp == 65001 || sum_cp == 1252) && rng.chance(1, 4) { format!("{text}\u{e9}") } else { text.to_string() };
                 props.push((id, PVal::Str(enc_sum(&t))));
             }
         }
